@@ -247,7 +247,7 @@ def literal_count_facts(exprs) -> list:
     return [str_count_nl(z3.StringVal(s)) == s.count("\n") for s in sorted(lits)]
 
 
-def discharge(vc: VC, timeout_ms: int = 10000) -> Discharged:
+def discharge(vc: VC, timeout_ms: int = 10000, retry: bool = True) -> Discharged:
     from pyvc.engine import int_str, parse_int, str_count_nl
 
     s = z3.Solver()
@@ -274,7 +274,7 @@ def discharge(vc: VC, timeout_ms: int = 10000) -> Discharged:
         return Discharged(vc, "held", "z3", ms)
     if r == z3.sat:
         return Discharged(vc, "violated", "z3", ms, s.model())
-    if vc.canary:
+    if vc.canary or not retry:
         return Discharged(vc, "undecided", "z3", ms, None, s.reason_unknown())
     # retry with a different configuration before giving up
     s2 = z3.SolverFor("AUFLIA") if False else z3.Solver()
@@ -299,4 +299,13 @@ def verify_contract(repo: Repo, reg: Registry, c: Contract, timeout_ms: int = 10
         return [], None, None, f"unsupported: {e}"
     except KeyError as e:
         return [], None, None, f"stale contract: {e}"
-    return [discharge(vc, timeout_ms) for vc in vcs], eng, entry, None
+    out = []
+    failures = 0
+    for vc in vcs:
+        # once three obligations of a contract have failed, the remaining ones get the plain budget without the long
+        # retry: the contract is evidently broken, and a broken tree must not make the check run for many minutes
+        d = discharge(vc, timeout_ms, retry=failures < 3)
+        if d.status != "held" and not vc.canary and not vc.cover:
+            failures += 1
+        out.append(d)
+    return out, eng, entry, None
